@@ -45,6 +45,25 @@ enum class PsiFormat {
   UPSTREAM, // Upstream kernel format
 };
 
+// std::stoll without the exceptions: empty, non-numeric and out-of-range text
+// is reported as an error the callers already know how to propagate.
+Oomd::SystemMaybe<int64_t> parseInt64(const std::string& str) {
+  try {
+    return static_cast<int64_t>(std::stoll(str));
+  } catch (const std::exception&) {
+    return SYSTEM_ERROR(EINVAL, "not an integer: \"", str, "\"");
+  }
+}
+
+// First line of a single-value control file, or an error if the file is empty
+Oomd::SystemMaybe<int64_t> parseInt64FirstLine(
+    const std::vector<std::string>& lines) {
+  if (lines.empty()) {
+    return SYSTEM_ERROR(EINVAL, "empty file");
+  }
+  return parseInt64(lines[0]);
+}
+
 PsiFormat getPsiFormat(const std::vector<std::string>& lines) {
   if (lines.size() == 0) {
     return PsiFormat::MISSING;
@@ -320,6 +339,9 @@ SystemMaybe<std::vector<std::string>> Fs::readControllersAt(
   if (!lines) {
     return SYSTEM_ERROR(lines.error());
   }
+  if (lines->empty()) {
+    return SYSTEM_ERROR(EINVAL, "empty ", kControllersFile);
+  }
   return Util::split((*lines)[0], ' ');
 }
 
@@ -330,7 +352,11 @@ SystemMaybe<std::vector<int>> Fs::getPidsAt(const DirFd& dirfd) {
   }
   std::vector<int> pids;
   for (const auto& sp : *str_pids) {
-    pids.push_back(std::stoi(sp));
+    auto pid = parseInt64(sp);
+    if (!pid) {
+      return SYSTEM_ERROR(pid.error());
+    }
+    pids.push_back(static_cast<int>(*pid));
   }
   return pids;
 }
@@ -460,7 +486,7 @@ SystemMaybe<int64_t> Fs::readMemcurrentAt(const DirFd& dirfd) {
   if (!lines) {
     return SYSTEM_ERROR(lines.error());
   }
-  return static_cast<int64_t>(std::stoll((*lines)[0]));
+  return parseInt64FirstLine(*lines);
 }
 
 SystemMaybe<ResourcePressure> Fs::readRootMempressure(PressureType type) {
@@ -493,7 +519,7 @@ SystemMaybe<int64_t> Fs::readMinMaxLowHighFromLines(
   if (lines[0] == "max") {
     return std::numeric_limits<int64_t>::max();
   }
-  return static_cast<int64_t>(std::stoll(lines[0]));
+  return parseInt64(lines[0]);
 }
 
 SystemMaybe<int64_t> Fs::readMemlowAt(const DirFd& dirfd) {
@@ -544,7 +570,7 @@ SystemMaybe<int64_t> Fs::readMemhightmpFromLines(
   if (tokens[0] == "max") {
     return std::numeric_limits<int64_t>::max();
   }
-  return static_cast<int64_t>(std::stoll(tokens[0]));
+  return parseInt64(tokens[0]);
 }
 
 SystemMaybe<int64_t> Fs::readMemhightmpAt(const DirFd& dirfd) {
@@ -577,7 +603,7 @@ SystemMaybe<int64_t> Fs::readSwapCurrentAt(const DirFd& dirfd) {
     return SYSTEM_ERROR(lines.error());
   }
   // The swap controller can be disabled via CONFIG_MEMCG_SWAP=n
-  return std::stoll((*lines)[0]);
+  return parseInt64FirstLine(*lines);
 }
 
 SystemMaybe<int64_t> Fs::readSwapMaxAt(const DirFd& dirfd) {
@@ -597,7 +623,7 @@ SystemMaybe<int64_t> Fs::readPidsCurrentAt(const DirFd& dirfd) {
   if (!line) {
     return SYSTEM_ERROR(line.error());
   }
-  return std::stoll((*line)[0]);
+  return parseInt64FirstLine(*line);
 }
 
 SystemMaybe<std::unordered_map<std::string, int64_t>> Fs::getVmstat(
@@ -619,7 +645,11 @@ SystemMaybe<std::unordered_map<std::string, int64_t>> Fs::getVmstat(
     auto key = line.substr(0, end_first);
     auto item = line.substr(begin_second, line.size() - begin_second);
 
-    map[key] = static_cast<int64_t>(std::stoll(item));
+    auto val = parseInt64(item);
+    if (!val) {
+      return SYSTEM_ERROR(EINVAL, "Invalid vmstat line format: ", line);
+    }
+    map[key] = *val;
   }
 
   return map;
@@ -970,7 +1000,11 @@ SystemMaybe<int> Fs::getSwappiness(const std::string& path) {
   if (str_swappiness->size() != 1) {
     return SYSTEM_ERROR(EINVAL, path, " malformed");
   }
-  return std::stoi((*str_swappiness)[0]);
+  auto swappiness = parseInt64((*str_swappiness)[0]);
+  if (!swappiness) {
+    return SYSTEM_ERROR(EINVAL, path, " malformed");
+  }
+  return static_cast<int>(*swappiness);
 }
 
 SystemMaybe<Unit> Fs::setSwappiness(int swappiness, const std::string& path) {
